@@ -15,6 +15,7 @@ def R(checks, shards=1, timeout=600, **kw):
     return d
 
 PROPS = {}
+PLAIN = {"checks": 0, "shards": 1, "timeout": 600}
 NOT_APPLICABLE = {}
 
 PROPS["C05"] = {
@@ -128,7 +129,6 @@ def extract_contracts(work):
         raise vdriver.Undecided("contract source refactored beyond the extractor: %s" % (r.stderr.strip() or r.stdout.strip()))
     os.environ["VERIF_CONTRACTS"] = out
 
-PLAIN = {"checks": 0, "shards": 1, "timeout": 600}
 PROPS["C07"] = {
     "rule": "exhaustive n = 0..255: CalculateQuorum(n) == floor(2n/3)+1 == the expression extracted from Messages.sol quorum() == the "
             "quorumSize expression extracted from governance.ral, BFT inequalities for n >= 1; behaviourally the interpreted Ralph "
@@ -153,7 +153,8 @@ PROPS["C16"] = {
             "non-trivial = a cycle killed with at least one acknowledgement and at least one write in flight",
     "assumptions": ["SIGKILL of the process (page cache survives): the quantifier of the property, not power loss", "kill instants are sampled in real time, not enumerated",
                     "in-flight = attempted after the last acknowledgement of that id"],
-    "units": [U("TestVerif_C16_KillCycles", "./pkg/db", R(12, shards=4, shrinktime="20s", timeout=600), R(150, shards=16, shrinktime="60s", timeout=1500))],
+    "units": [U("TestVerif_C16_KillCycles", "./pkg/db", R(12, shards=4, shrinktime="20s", timeout=600), R(150, shards=16, shrinktime="60s", timeout=1500), replay_tries=3),
+              U("TestVerif_C16_CrashDuringOpen", "./pkg/db", PLAIN, PLAIN, kind="plain")],
 }
 
 GD = "./cmd/guardiand"
